@@ -385,6 +385,9 @@ func ruleBNameTest(w *World, r *Report) {
 					if !viaPrefix && !viaURI {
 						ok, why = false, "accepts a node under a name test without LocalName and (Prefix | bound namespace URI) both matching"
 					}
+					if has(p, fNS, true) && has(p, fHas, true) && !viaURI {
+						ok, why = false, "accepts a node by its prefix although the step has a bound namespace URI and the navigator reports URIs: a document binding the same prefix to another namespace is matched"
+					}
 				}
 			}
 			if ok {
